@@ -1,7 +1,7 @@
 ------------------------------ MODULE MC_Group ------------------------------
 EXTENDS Group
 \* prime-order groups (ristretto255, P-256, P-384, P-521) and Curve25519 (clamped scalars)
-PrimeClasses == {"seed-rand", "seed-zeros", "seed-ones", "one", "orderm1", "random"}
-XClasses     == {"seed-rand", "seed-zeros", "seed-ones", "clampmin", "clampmax", "random"}
+PrimeClasses == {"seed-rand", "seed-zeros", "seed-ones", "one", "orderm1", "random", "import-raw", "import-adj"}
+XClasses     == {"seed-rand", "seed-zeros", "seed-ones", "clampmin", "clampmax", "random", "import-raw", "import-adj"}
 AllCodecs    == {"native", "bincode", "json"}
 =============================================================================
